@@ -11,22 +11,35 @@ Streams (all seeded by VERIF_SEED):
              encoded lists and the same table as the model, and nghttp2's inflater must agree
   conn-corrupt all single-bit and many single-byte corruptions of short valid blocks: error or the
              same list as the model and (when both accept) as nghttp2 -- never silently different
+  resp       the real h2_send_headers / h2_send_1xx / h2_send_end_stream_trailers / h2_send_hpack on an
+             in-process connection: frames checked, block decoded by nghttp2, list compared with the
+             Lean glue model and an independent Python statement of the response's fields
+  req        the real h2_parse_frames / h2_recv_continuation / h2_recv_headers: HEADERS(+CONTINUATION,
+             PADDED, PRIORITY) sequences incl. refused streams, trailers, streams after GOAWAY, requests
+             the header parser refuses half way; outcome + final HPACK decoder table against the Lean
+             model, outcome + request view against an independent Python statement (PyGlue)
 """
 import random
 from .. import common as C
 
 MANIFEST = dict(
-    text="Lean 4 theorems over an executable model of HPACK as implemented by ls-hpack (integer and "
-         "string coding, Huffman 4-bit automaton over the extracted decode_tables, static + dynamic "
-         "table with eviction and size updates, decode loops of h2.c) and a policy-parameterised "
-         "reference encoder: round trip for every header list / choice sequence / table size, tables "
-         "stay in sync over whole connections incl. discarded blocks, table size bound, Huffman and "
-         "integer round trips; model tied to the C by differential runs under ASan/UBSan with "
+    text="Lean 4 theorems over an executable model of HPACK as implemented by ls-hpack and used by h2.c: "
+         "integer and string coding, Huffman (4-bit automaton over the extracted decode_tables, proved "
+         "equal to the code tree of the extracted encode_table by kernel-checked certificates: round trip "
+         "AND every accepted string is canonical), static + dynamic table with eviction and size updates, "
+         "the decode loops of h2_parse_headers_frame / h2_discard_headers_frame, a policy-parameterised "
+         "reference encoder standing for any conformant peer: round trip for every header list / choice "
+         "sequence / table size, tables in sync over whole connections incl. discarded blocks and SETTINGS "
+         "changes, table size bound for arbitrary input, unambiguity, error theorems; response glue "
+         "(lower-casing, repeated-field split, id maps consistent); model tied to the C by differential "
+         "runs under ASan/UBSan (lshpack.c statics, real h2.c request and response paths in-process) with "
          "nghttp2 as a second independent HPACK peer",
     note="trusted: Lean kernel (+propext, Quot.sound, Classical.choice), hand-written model validated by "
-         "the h_hpack correspondence; static table, Huffman encode and decode tables and constants are "
-         "regenerated from lshpack.c/huff-tables.h on every run (a changed table entry breaks a proof "
-         "obligation); lshpack's own choice of encoding is not modelled (its output is decoded)",
+         "the h_hpack correspondence; static table, Huffman encode/decode tables, header-id maps and "
+         "constants are regenerated from lshpack.c/huff-tables.h/h2.c/http_header.c on every run (a changed "
+         "entry breaks a proof obligation); lshpack's own choice of encoding is not modelled (its output is "
+         "decoded by nghttp2 and by the model); content rules of http_request_parse_header are an input of "
+         "the glue model; three upstream leniencies are modelled as they are (c07_deviation_*)",
     tech="Lean 4 proof over hand-written model + differential correspondence (in-process C harness, "
          "libnghttp2 as second peer)",
     ref="6/C07")
@@ -1135,7 +1148,13 @@ def run(ctx):
     ctx.dist["corrupted_blocks"] = len(bad)
     ctx.rule = ("cases: exhaustive 1-2 octet integers / Huffman strings + random primitives; connection histories "
                 "(1..1000 blocks, served/discarded mixed, table size changes) from 3 independent encoders; every "
-                "single-bit corruption of short blocks; distinct = (op, outcome/error kind, blocks, table fill) tuples")
+                "single-bit corruption of short blocks; responses and request HEADERS sequences through the real "
+                "h2.c; distinct = (op, outcome/error kind, blocks, table fill / frame shape) tuples")
+    ctx.exhaustive = False
+    ctx.notes.append("exhaustive parts: every 1-octet and every (full-prefix, x) 2-octet integer for prefixes 4..7; "
+                     "Huffman decode of every 1- and 2-octet string; Huffman encode/decode round trip of every "
+                     "octet and every pair of octets; all 8 single-bit flips (+ truncations, deletions, insertions) "
+                     "of every octet of the short valid blocks")
     ctx.assumptions += ["nghttp2 (libnghttp2) is a conformant HPACK peer"]
 
 
